@@ -233,12 +233,13 @@ class Orbital(object):
         lon = np.where(lon > np.pi, lon - np.pi * 2, lon)
         lon = np.where(lon <= -np.pi, lon + np.pi * 2, lon)
 
-        r = np.sqrt(pos_x ** 2 + pos_y ** 2)
+        r = np.sqrt(pos_x * pos_x + pos_y * pos_y)
         lat = np.arctan2(pos_z, r)
         e2 = F * (2 - F)
         while True:
             lat2 = lat
-            c = 1 / (np.sqrt(1 - e2 * (np.sin(lat2) ** 2)))
+            sin_lat2 = np.sin(lat2)
+            c = 1 / (np.sqrt(1 - e2 * (sin_lat2 * sin_lat2)))
             lat = np.arctan2(pos_z + c * e2 * np.sin(lat2), r)
             if np.all(abs(lat - lat2) < 1e-10):
                 break
@@ -1076,8 +1077,9 @@ class _Keplerians:
         self._xmp = self._params.xmo + self._params.xmdot * self._ts
         self._xnode = self._params.xnodeo + self._ts * (self._params.xnodot + self._ts * self._params.xnodcf)
 
-        delm = self._params.xmcof * \
-            ((1.0 + self._params.eta * np.cos(self._xmp))**3 - self._params.delmo)
+        # products, not ``**``: numpy scalars and arrays round pow() differently
+        temp = 1.0 + self._params.eta * np.cos(self._xmp)
+        delm = self._params.xmcof * (temp * temp * temp - self._params.delmo)
         self._temp0 = self._ts * self._params.omgcof + delm
         self._xmp += self._temp0
 
@@ -1130,14 +1132,14 @@ class _Keplerians:
                 (self._ts *
                  (self._params.c1 + self._ts * (self._params.d2 + self._ts *
                   (self._params.d3 + self._ts * self._params.d4))))
-        self._a = self._params.aodp * tempa**2
+        self._a = self._params.aodp * (tempa * tempa)
 
         if np.any(self._a < 1):
             raise Exception("Satellite crashed at time %s", self._utc_time)
 
     def _calculate_axn_and_ayn(self):
         e = self._calculate_e(self._tempe)
-        beta2 = 1.0 - e**2
+        beta2 = 1.0 - e * e
 
         # Long period periodics
         sinOMG = np.sin(self.omega)
@@ -1178,7 +1180,7 @@ class _Keplerians:
 
         self._u = np.arctan2(sinu, cosu)
         self._sin2u = 2.0 * sinu * cosu
-        self._cos2u = 2.0 * cosu**2 - 1.0
+        self._cos2u = 2.0 * (cosu * cosu) - 1.0
         self._temp0 = 1.0 / self._pl
         self._temp1 = CK2 * self._temp0
         self._temp2 = self._temp1 * self._temp0
@@ -1254,7 +1256,7 @@ def _check_orbital_elements(orbit_elements):
 
 
 def _calculate_elsq(axn, ayn, utc_time):
-    elsq = axn**2 + ayn**2
+    elsq = axn * axn + ayn * ayn
 
     if np.any(elsq >= 1):
         raise Exception("e**2 >= 1 at %s", utc_time)
